@@ -18,6 +18,7 @@ META = {
                     'only the Linux/macOS cfg of wait_for_fd is analysed'],
     'trusted_base': ['rustc nightly MIR construction', 'mirfacts exporter', 'rules/c20.py, sym.py, facts.py'],
 }
+META['explanation'] += ' (R20.10) RdpClient::read takes exactly one PDU from the MCS layer per call (no loop): the receive thread calls it with the client locked after one readiness notification.'
 
 THREAD = 'mstsc_rs::launch_rdp_thread::{closure#0}'
 CALLBACK = 'mstsc_rs::launch_rdp_thread::{closure#0}::{closure#0}'
